@@ -117,6 +117,32 @@ where
         simp only [tailsAfter, hm]
         exact List.mem_cons_of_mem _ this
 
+/-- the ids offered while verifying `x` are still offered while verifying any further-attenuated
+descendant `y` (same nonce, `x`'s caveats as a prefix): attenuation only ADDS ids, so it cannot
+invalidate a binding made earlier.  No lawfulness needed: it is a fact about the chain walk -/
+theorem offered_ids_grow (k : B) (x y : Mac B) (more : List (Cav B))
+    (hn : y.nonce = x.nonce) (hc : y.cavs = x.cavs ++ more)
+    (hx : ∃ t, chain (macNonce k x.nonce) x.cavs = some t) :
+    ∀ id ∈ offeredIds k x, id ∈ offeredIds k y := by
+  obtain ⟨t, ht⟩ := hx
+  intro id hid
+  unfold offeredIds at hid ⊢
+  rw [hn, hc, tailsAfter_append _ _ _ _ ht]
+  simp only [List.mem_cons, List.map_append, List.mem_append] at hid ⊢
+  rcases hid with h | h
+  · exact Or.inl h
+  · exact Or.inr (Or.inl h)
+
+/-- hence every binding caveat that passes the binding test against `x` passes it against every
+descendant of `x` — whatever the binding id is (not only `bindId x.tail`) -/
+theorem binding_survives_attenuation (k : B) (x y : Mac B) (more : List (Cav B)) (id : B)
+    (hn : y.nonce = x.nonce) (hc : y.cavs = x.cavs ++ more)
+    (hx : ∃ t, chain (macNonce k x.nonce) x.cavs = some t)
+    (hb : (offeredIds k x).any (fun bid => hasPrefix bid id) = true) :
+    (offeredIds k y).any (fun bid => hasPrefix bid id) = true := by
+  obtain ⟨bid, hm, hp⟩ := List.any_eq_true.mp hb
+  exact List.any_eq_true.mpr ⟨bid, offered_ids_grow k x y more hn hc hx bid hm, hp⟩
+
 /-! ### non-vacuity (symbolic instance) -/
 
 section examples
@@ -139,6 +165,8 @@ example := all_bindings_required (atom 11) bd12 (offeredIds (atom 0) b2) true []
 example := binding_at_top_level_rejected (atom 11) bd1 [] (fun _ => []) (bindId b1.tail) (by decide)
 example : verify (atom 11) bd1 [] (fun _ => []) = .error .boundElsewhere := by rfl
 example := bound_passes_descendants (atom 0) b1 b2 [.action 1] rfl (by rfl) (by rfl) ⟨_, by rfl⟩
+example := offered_ids_grow (atom 0) b1 b2 [.action 1] rfl (by rfl) ⟨_, by rfl⟩
+example := binding_survives_attenuation (atom 0) b1 b2 [.action 1] (bindId b1.tail) rfl (by rfl) ⟨_, by rfl⟩ (by rfl)
 
 end examples
 
@@ -148,3 +176,5 @@ end Macaroon.Props.C06
 #print axioms Macaroon.Props.C06.all_bindings_required
 #print axioms Macaroon.Props.C06.binding_at_top_level_rejected
 #print axioms Macaroon.Props.C06.bound_passes_descendants
+#print axioms Macaroon.Props.C06.offered_ids_grow
+#print axioms Macaroon.Props.C06.binding_survives_attenuation
